@@ -87,6 +87,9 @@ def warm_pycache(scratch):
                        timeout=120, cwd='/')
     if r.returncode != 0:
         raise HarnessError('cannot import propka from %s:\n%s' % (REPO, r.stderr[-2000:]))
+    for opt in ('1', '2'):      # byte code for python -O / -OO workers as well
+        subprocess.run([PY, '-c', code], env=dict(env, PYTHONOPTIMIZE=opt), capture_output=True,
+                       text=True, timeout=120, cwd='/')
 
 
 def hashseed_for(seed):
